@@ -136,6 +136,15 @@ impl RenameProp {
                 let mut occ = vec![]; occurrences_g(&q, &mut occ);
                 if let Some(f) = check_ids(self.id, "make_query", &occ, 0, &case) { return Some(f); }
                 if zero_g(&q) != suiron::Goal::ComplexGoal(rule.head.clone()) { return Some(fail(self.id, "structure-changed", format!("make_query gave {}", q), case.clone())); }
+                // 5. the same from terms whose variables already carry ids (taken from an earlier renaming, as a caller
+                // does who builds a new query out of an old goal, or with logic_var!(n, name)): old ids mean nothing
+                if let U::SComplex(numbered) = &g.head {
+                    suiron::set_var_id(start + 3);
+                    let q = suiron::make_query(numbered.clone());
+                    let mut occ = vec![]; occurrences_g(&q, &mut occ);
+                    if let Some(f) = check_ids(self.id, "make_query(terms with numbered variables)", &occ, 0, &case) { return Some(f); }
+                    if zero_g(&q) != suiron::Goal::ComplexGoal(rule.head.clone()) { return Some(fail(self.id, "structure-changed", format!("make_query over numbered variables gave {}", q), case.clone())); }
+                }
             }
             None
         });
